@@ -52,14 +52,67 @@ pub const THREADS: [usize; 9] = [1, 2, 3, 5, 6, 7, 8, 12, 16];
 // ---------------------------------------------------------------------------------------------
 #[cfg(feature = "concurrent")]
 fn in_pool<R: Send>(threads: usize, f: impl FnOnce() -> R + Send) -> R {
-    use winter_utils::rayon::ThreadPoolBuilder;
-    let pool = ThreadPoolBuilder::new().num_threads(threads).stack_size(1 << 20).build().expect("rayon pool");
-    pool.install(f)
+    use std::sync::Arc;
+    use winter_utils::rayon::{ThreadPool, ThreadPoolBuilder};
+    // the pool of the last requested size is kept (requests are grouped by thread count); only one
+    // pool is alive at a time so that the address-space limit of the check driver is not an issue.
+    // `rayon::current_num_threads()` inside `install` is the size of THIS pool, whatever
+    // RAYON_NUM_THREADS says.
+    static POOL: Mutex<Option<(usize, Arc<ThreadPool>)>> = Mutex::new(None);
+    let pool = {
+        let mut slot = POOL.lock().unwrap_or_else(|e| e.into_inner());
+        match &*slot {
+            Some((t, p)) if *t == threads => p.clone(),
+            _ => {
+                *slot = None; // drop the previous pool first
+                let stack = if threads > 64 { 256 << 10 } else { 1 << 20 };
+                let built = ThreadPoolBuilder::new().num_threads(threads).stack_size(stack).build();
+                let p = match built {
+                    Ok(p) => Arc::new(p),
+                    Err(e) => {
+                        drop(slot);
+                        panic!("HARNESS: cannot build a rayon pool of {threads} threads: {e}");
+                    },
+                };
+                *slot = Some((threads, p.clone()));
+                p
+            },
+        }
+    };
+    pool.install(|| {
+        assert_eq!(rayon_num_threads(), threads, "HARNESS: pool size");
+        f()
+    })
 }
 #[cfg(not(feature = "concurrent"))]
 fn in_pool<R: Send>(_threads: usize, f: impl FnOnce() -> R + Send) -> R {
     f()
 }
+
+/// runs `f`; a panic whose message contains `expected` (the documented assertion) is answered
+/// `abort`, any other panic (e.g. a harness resource problem) is reported with its message
+fn abort_only_on<R>(expected: &str, f: impl FnOnce() -> R, show: impl FnOnce(R) -> String) -> String {
+    match std::panic::catch_unwind(std::panic::AssertUnwindSafe(f)) {
+        Ok(r) => show(r),
+        Err(e) => {
+            let msg = e.downcast_ref::<String>().cloned().or_else(|| e.downcast_ref::<&str>().map(|s| s.to_string())).unwrap_or_default();
+            if msg.contains(expected) { "abort".into() } else { format!("panic: {msg}") }
+        },
+    }
+}
+
+/// glibc gives every thread its own 64 MiB malloc arena (address space, not memory): with the 8 GiB
+/// address-space limit of the check driver a 600-thread pool could not be created; cap the arenas
+#[cfg(all(feature = "concurrent", target_os = "linux", target_env = "gnu"))]
+fn cap_malloc_arenas() {
+    extern "C" {
+        fn mallopt(param: i32, value: i32) -> i32;
+    }
+    const M_ARENA_MAX: i32 = -8;
+    unsafe { mallopt(M_ARENA_MAX, 4); }
+}
+#[cfg(not(all(feature = "concurrent", target_os = "linux", target_env = "gnu")))]
+fn cap_malloc_arenas() {}
 
 /// does this build execute the request for real? (the serial build has no thread count)
 fn real(threads: usize) -> bool {
@@ -99,7 +152,7 @@ fn documented_plan(len: usize, min: usize, threads: usize) -> String {
 }
 
 fn real_plan(len: usize, min: Option<usize>, threads: usize) -> String {
-    in_pool(threads, || {
+    abort_only_on("chunk_size must not be zero", || in_pool(threads, || {
         let mut data = vec![0u32; len];
         let seen: Mutex<Vec<(usize, usize)>> = Mutex::new(vec![]);
         match min {
@@ -112,6 +165,7 @@ fn real_plan(len: usize, min: Option<usize>, threads: usize) -> String {
                 });
             },
             Some(min) => {
+                let _ = min; // the serial arm of the macro does not look at it
                 batch_iter_mut!(&mut data, min, |batch: &mut [u32], off: usize| {
                     seen.lock().unwrap().push((off, batch.len()));
                     for x in batch.iter_mut() {
@@ -124,7 +178,7 @@ fn real_plan(len: usize, min: Option<usize>, threads: usize) -> String {
             return "some element not visited exactly once".to_string();
         }
         show_plan(seen.into_inner().unwrap())
-    })
+    }), |s| s)
 }
 
 fn plan_case(out: &mut Out, len: usize, min: Option<usize>, threads: usize) {
@@ -300,7 +354,10 @@ fn render_eval(cfg: Cfg, threads: usize, table: &HashMap<u64, usize>) -> String 
     if !real(threads) && documented_frags(cfg, threads).is_none() {
         return "abort".into(); // the documented assertion `fragment size must be at least 16`
     }
-    let o = observe(cfg, exec_threads);
+    abort_only_on("fragment size must be at least", || observe(cfg, exec_threads), |o| render_observed(cfg, threads, table, o))
+}
+
+fn render_observed(cfg: Cfg, threads: usize, table: &HashMap<u64, usize>, o: Observed) -> String {
     let shift = cfg.shift();
     // fragments: start and number of rows, each must read consecutive steps `(off + i) << shift`
     let mut frags = vec![];
@@ -362,8 +419,9 @@ fn eval_cases(out: &mut Out, n: usize, comb: bool) {
             if comb {
                 out.count(&format!("comb:ce={}", cfg.ce()));
                 out.case(&format!("c06c comb {} {threads}", cfg.words()), "-", || {
-                    let o = observe(cfg, if cfg!(feature = "concurrent") { threads } else { 1 });
-                    format!("n{}:h{}", o.comb.len(), fnv(o.comb.iter().map(|e| e.as_int())))
+                    abort_only_on("fragment size must be at least",
+                        || observe(cfg, if cfg!(feature = "concurrent") { threads } else { 1 }),
+                        |o| format!("n{}:h{}", o.comb.len(), fnv(o.comb.iter().map(|e| e.as_int()))))
                 });
             } else {
                 out.count(&format!("eval:ce={}:threads={threads}", cfg.ce()));
@@ -383,6 +441,7 @@ fn eval_cases(out: &mut Out, n: usize, comb: bool) {
 }
 
 pub fn run(rng: &mut Rng, out: &mut Out, n: usize) {
+    cap_malloc_arenas();
     // enumerated plans: every listed thread count x minimum batch sizes of the crates (1, 128, 1024)
     // and an odd one x lengths around every case split
     for threads in THREADS {
@@ -413,5 +472,6 @@ pub fn run(rng: &mut Rng, out: &mut Out, n: usize) {
 }
 
 pub fn run_comb(_rng: &mut Rng, out: &mut Out, n: usize) {
+    cap_malloc_arenas();
     eval_cases(out, n, true);
 }
